@@ -111,7 +111,7 @@ theorem Rep.rollback {K : Bytes → Prop} (hK : WFKeys K) {db : DB} {m : VMap} {
       simp only [hasPrefix_iff.mpr (List.prefix_append _ _), if_true, Option.some.injEq, List.drop_left] at heq
       subst heq
       have hget : smGet db (mkKey (hssPrefix ++ k) w) = some e.2 :=
-        (smGet_eq_some_iff h.sorted _ _).mpr (by rw [← hek])
+        (smGet_eq_some_iff h.sorted _ _).mpr (by rw [← hek]; exact hedb)
       obtain ⟨y, hy, _⟩ := (h.hss k w _ hw).mp hget
       exact ⟨w, y, hy, by omega⟩
     · rintro ⟨w, y, hy, hw⟩
@@ -138,51 +138,9 @@ theorem Rep.rollback {K : Bytes → Prop} (hK : WFKeys K) {db : DB} {m : VMap} {
       exact ⟨e.2, hedb, hrest⟩
     · rintro ⟨raw, hdb, hrest⟩
       exact ⟨(key, raw), (mem_hitOf hK h _ _ _).mpr ⟨hdb, hrest⟩, rfl⟩
-  have hget_h : ∀ k x, (VS.mk db t).get (hssPrefix ++ k) = some x ↔ readAt m t k = some x := by
-    intro k x
-    by_cases hk : K k
-    · rw [VS.get_sees db (h.wfl hK) t (by have := h.ver_lt; omega) _ (h.compatK hK hk).1, h.sees_hss]
-    · -- a key outside `K` is nowhere
-      have hnone : readAt m t k = none := readAt_none_of_no_key fun w y hm => hk (h.mkeys _ hm)
-      rw [hnone]
-      constructor
-      · intro hg
-        exfalso
-        rw [VS.get_eq_bind] at hg
-        cases hraw : (VS.mk db t).getRaw (hssPrefix ++ k) with
-        | none => rw [hraw] at hg; cases hg
-        | some tv =>
-          unfold VS.getRaw at hraw
-          simp only at hraw
-          cases hc : (PCur.seekGE (bound db (hssPrefix ++ k) (prefixEnd (hssPrefix ++ k))) (mkKey (hssPrefix ++ k) t)).cur? with
-          | none => rw [hc] at hraw; cases hraw
-          | some e =>
-            rw [hc] at hraw
-            have hmem : e ∈ db := by
-              have : e ∈ (PCur.seekGE (bound db (hssPrefix ++ k) (prefixEnd (hssPrefix ++ k))) (mkKey (hssPrefix ++ k) t)).post := by
-                unfold PCur.cur? at hc
-                simp only [PCur.seekGE, Bool.false_eq_true, if_false] at hc
-                exact List.mem_of_mem_head? hc
-              exact (List.mem_filter.mp ((List.dropWhile_sublist _).subset this)).1
-            obtain ⟨k', w', hk', hw', hor⟩ := h.keys e hmem
-            cases huk : userKeyOf? e.1 with
-            | none => rw [huk] at hraw; cases hraw
-            | some fk =>
-              rw [huk] at hraw
-              simp only at hraw
-              by_cases hfk : fk ≠ hssPrefix ++ k
-              · rw [if_pos hfk] at hraw; cases hraw
-              · simp only [ne_eq, Decidable.not_not] at hfk
-                rcases hor with hor | hor
-                · rw [hor, userKeyOf_mkKey _ (by rw [hssPrefix_eq]; simp)] at huk
-                  injection huk with huk
-                  rw [hfk] at huk
-                  exact hk (List.append_cancel_left huk ▸ hk')
-                · rw [hor, userKeyOf_mkKey _ (by rw [lssPrefix_eq]; simp)] at huk
-                  injection huk with huk
-                  rw [hfk] at huk
-                  exact part_ne k k' huk.symm
-      · intro hg; cases hg
+  have hget_h : ∀ k x, K k → ((VS.mk db t).get (hssPrefix ++ k) = some x ↔ readAt m t k = some x) := by
+    intro k x hk
+    rw [VS.get_sees db (h.wfl hK) t (by have := h.ver_lt; omega) _ (h.compatK hK hk).1, h.sees_hss]
   refine ⟨sorted_applyBatch h.sorted _, ?_, ?_, ?_, hu', ?_, ?_, by have := h.ver_lt; omega⟩
   · -- key shapes
     intro e he
@@ -239,16 +197,19 @@ theorem Rep.rollback {K : Bytes → Prop} (hK : WFKeys K) {db : DB} {m : VMap} {
       rw [batchLookup_map_inj keys (patchOp db t) (fun a => mkKey (lssPrefix ++ a) maxVer) hFL (patchOp_key db t) k]
       by_cases hin : k ∈ keys
       · rw [if_pos hin]
+        have hkK : K k := by
+          obtain ⟨w', y', hy', _⟩ := (hkeys k).mp hin
+          exact h.mkeys _ hy'
         simp only [patchOp_res, true_and]
         cases hg : (VS.mk db t).get (hssPrefix ++ k) with
         | none =>
           have : readAt m t k = none := by
             cases hr : readAt m t k with
             | none => rfl
-            | some x => rw [(hget_h k x).mpr hr] at hg; cases hg
+            | some x => rw [(hget_h k x hkK).mpr hr] at hg; cases hg
           rw [this]; simp
         | some x =>
-          rw [(hget_h k x).mp hg]
+          rw [(hget_h k x hkK).mp hg]
           simp only [Option.map_some, Option.some.injEq]
           constructor
           · intro e; exact ⟨x, rfl, e.symm⟩
